@@ -43,10 +43,42 @@ def teams(tier):
                         yield {"kind": "alt", "L": L, "alap": alap, "m": m, "k": k, "eff2": eff2}
 
 
+def team_blockers(tier):
+    """A team task spanning several slots meets a pinned, higher-priority sub-slot task that holds part of a
+    later slot on ONE member (either position in the allocate list)."""
+    for L in (60, 30):
+        for alap in (False, True):
+            for m in (90, 150, 165, 240):
+                for k in (0, 1, 2, 3):
+                    for bm in (20, 30, 45):
+                        for bres in ("r1", "r2"):
+                            for order in (("r1", "r2"), ("r2", "r1")):
+                                for eff in ((1.0,) if tier == "quick" else (1.0, 0.5)):
+                                    yield {"kind": "tb", "L": L, "alap": alap, "m": m, "k": k, "bm": bm, "bres": bres, "order": order, "eff": eff}
+
+
+def tb_spec(it):
+    L = it["L"]
+    if it["alap"]:
+        # backward: the team fills the last day from 17:00 downwards; the blocker ends k slots before 17:00 on the last working day
+        from datetime import datetime, timedelta
+        end = datetime(2025, 1, 24, 17, 0) - timedelta(minutes=L * it["k"])
+        blk = {"id": "blk", "effort": it["bm"], "alloc": [it["bres"]], "prio": 1000, "end": end.strftime("%Y-%m-%d-%H:%M")}
+    else:
+        from datetime import datetime, timedelta
+        st = datetime(2025, 1, 6, 9, 0) + timedelta(minutes=L * it["k"])
+        blk = {"id": "blk", "effort": it["bm"], "alloc": [it["bres"]], "prio": 1000, "start": st.strftime("%Y-%m-%d-%H:%M")}
+    return {"res_min": L if L != 60 else None, "alap": it["alap"],
+            "resources": [{"id": "r1", "eff": it["eff"]}, {"id": "r2", "eff": it["eff"]}],
+            "tasks": [blk, {"id": "team", "effort": it["m"], "alloc": list(it["order"])}]}
+
+
 def to_spec(it):
     k = it["kind"]
     if k in ("hist", "proj"):
         return c01.to_spec(it)
+    if k == "tb":
+        return tb_spec(it)
     L = it["L"]
     base = {"res_min": L if L != 60 else None, "alap": it["alap"]}
     if k == "single":
@@ -117,6 +149,7 @@ def sample(item):
 def universe(tier):
     yield from singles(tier)
     yield from teams(tier)
+    yield from team_blockers(tier)
     yield from c01.projects(tier)
 
 
